@@ -2,7 +2,7 @@
    theorems of Proofs/RwStep.v and RwPin.v, which quantify over all accepted scripts, apply to it),
    and the guards returned by read / map / try_map own the read lock. *)
 From Coq Require Import List String Bool.
-From AM Require Import Rust.Ast Rust.Script Ref.RwCell Gen.Entry.
+From AM Require Import Rust.Ast Rust.Script Ref.RwCell Gen.Entry Gen.Private.
 Import ListNotations.
 
 Definition is_swap (a : action) := match a with SwapWords _ => true | _ => false end.
@@ -46,3 +46,15 @@ Definition via_read (f : fn_def) : bool :=
   end.
 Lemma copies_go_through_a_guard : via_read Handle_copied = true /\ via_read Handle_cloned = true.
 Proof. vm_compute. split; reflexivity. Qed.
+
+(* the crate's RwLock wrapper: `read` takes the shared lock and `write` the exclusive one of the
+   wrapped lock, for the std and the parking_lot back-end *)
+Definition takes (m : string) (f : fn_def) : bool :=
+  match fn_body f with
+  | [ECall (EPath ["wrap"]) [EMethod (EField (EPath ["self"]) "0") m' []]] => String.eqb m m'
+  | _ => false
+  end.
+Lemma rwlock_wrapper_is_faithful :
+  takes "read" RwLock_read = true /\ takes "write" RwLock_write = true /\
+  takes "read" RwLock_read_pl = true /\ takes "write" RwLock_write_pl = true.
+Proof. vm_compute. repeat split. Qed.
